@@ -46,6 +46,12 @@ pub struct Case {
     /// (whatever the allow list names) – the extension's inputs must not widen the allow list
     #[serde(default)]
     pub prf: bool,
+    /// registrations: 0 an ordinary request; 1 the only offered algorithm is unsupported (RS256);
+    /// 2 no algorithm offered; 3 pin-auth present (unsupported).  The statement's "refused with
+    /// credential-excluded exactly when the exclude list names a held credential" does not depend on
+    /// what else is wrong with the request
+    #[serde(default)]
+    pub reg_variant: u8,
 }
 
 fn hinted(ids: &Option<Vec<Vec<u8>>>, hints: u8) -> Option<Vec<passkey_types::webauthn::PublicKeyCredentialDescriptor>> {
@@ -141,11 +147,16 @@ pub fn cases(tier: Tier) -> Vec<Case> {
                     for op in ["assert", "register"] {
                         let hs: &[u8] = if list.as_ref().map_or(true, |l| l.is_empty()) { &[0] } else { &[0, 1, 2, 3, 4] };
                         for &hints in hs {
-                            v.push(Case { content, newest_first, rp, list: list.clone(), op: op.into(), hints, empty_ok: false, prf: false });
+                            v.push(Case { content, newest_first, rp, list: list.clone(), op: op.into(), hints, empty_ok: false, prf: false, reg_variant: 0 });
+                            if hints == 0 && op == "register" && list.as_ref().map_or(true, |l| l.len() <= 3) {
+                                for reg_variant in 1..4u8 {
+                                    v.push(Case { content, newest_first, rp, list: list.clone(), op: op.into(), hints, empty_ok: false, prf: false, reg_variant });
+                                }
+                            }
                             if hints == 0 {
-                                v.push(Case { content, newest_first, rp, list: list.clone(), op: op.into(), hints, empty_ok: true, prf: false });
+                                v.push(Case { content, newest_first, rp, list: list.clone(), op: op.into(), hints, empty_ok: true, prf: false, reg_variant: 0 });
                                 if op == "assert" && list.as_ref().map_or(true, |l| l.len() <= 3) {
-                                    v.push(Case { content, newest_first, rp, list: list.clone(), op: op.into(), hints, empty_ok: false, prf: true });
+                                    v.push(Case { content, newest_first, rp, list: list.clone(), op: op.into(), hints, empty_ok: false, prf: true, reg_variant: 0 });
                                 }
                             }
                         }
@@ -154,7 +165,7 @@ pub fn cases(tier: Tier) -> Vec<Case> {
                 if rp < 3 {
                     for newest_first in [true, false] {
                         for op in ["client-assert", "client-register"] {
-                            v.push(Case { content, newest_first, rp, list: list.clone(), op: op.into(), hints: 0, empty_ok: false, prf: false });
+                            v.push(Case { content, newest_first, rp, list: list.clone(), op: op.into(), hints: 0, empty_ok: false, prf: false, reg_variant: 0 });
                         }
                     }
                 }
@@ -162,7 +173,7 @@ pub fn cases(tier: Tier) -> Vec<Case> {
                     if s.contains("Option") && content.count_ones() > 1 {
                         continue;
                     }
-                    v.push(Case { content, newest_first: false, rp, list: list.clone(), op: format!("store:{s}"), hints: 0, empty_ok: false, prf: false });
+                    v.push(Case { content, newest_first: false, rp, list: list.clone(), op: format!("store:{s}"), hints: 0, empty_ok: false, prf: false, reg_variant: 0 });
                 }
             }
         }
@@ -247,8 +258,13 @@ fn eval_authenticator(c: &Case) -> (Vec<Finding>, String) {
             }
         }
     } else {
-        let mut req = mc_request(rp, &[7], ids.clone(), true, true, true, false, None);
+        let mut req = mc_request(rp, &[7], ids.clone(), true, true, true, c.reg_variant == 3, None);
         req.exclude_list = hinted(&ids, c.hints);
+        match c.reg_variant {
+            1 => req.pub_key_cred_params = vec![param(coset::iana::Algorithm::RS256)],
+            2 => req.pub_key_cred_params = vec![],
+            _ => {}
+        }
         let r = par::catch(|| block_on(auth.make_credential(req)));
         let after = store.recs();
         let should_exclude = nonempty.is_some() && !listed.is_empty();
@@ -273,8 +289,10 @@ fn eval_authenticator(c: &Case) -> (Vec<Finding>, String) {
                     if b != 0x19 {
                         bad("excluded-wrong-error", format!("expected CredentialExcluded (0x19), got 0x{b:02x}"));
                     }
-                } else {
+                } else if c.reg_variant == 0 {
                     bad("refused-without-excluded-credential", format!("nothing in the exclude list is held for {rp:?}, yet registration failed with 0x{b:02x}"));
+                } else if b == 0x19 {
+                    bad("excluded-without-held-credential", format!("nothing in the exclude list is held for {rp:?}, yet registration failed with CredentialExcluded"));
                 }
                 if after != before {
                     bad("refused-but-store-changed", "store changed by a refused registration".into());
@@ -601,7 +619,7 @@ pub fn run(ctx: &Ctx) -> Result<Run, String> {
     let n = cs.len() as u64 + csched;
     let mut run = Run::from_stats(
         "model_checking",
-        "universe of 4 credentials (2 RPs x 2, equal user handles across RPs): all 16 store contents x RP in {a, b, RP without credentials, a in another letter case, a with a trailing dot} x lists {absent, empty, sub-lists of the 4 ids + 1 unknown id (size <= 2 in both orders quick, all 31 thorough), and ids in a value relation to a held id (a strict prefix of it, it plus one byte, the empty id, its base64url / hex / padded base64 text as bytes, the id reversed) alone and next to each of the 4 ids, and lists of 64..129 entries in which a held id sits behind, in front of or between runs of 64 unknown ids} x transports hints on the descriptors {none, disjoint from the authenticator's, overlapping, mixed, empty} x {no extension, PRF inputs per credential naming every id of the universe on an hmac-secret authenticator} x listing order {newest, oldest first} for get_assertion (allow list) and make_credential (exclude list) on the real Authenticator over the contract store; the same contents x lists x RPs {a, b, none} x listing orders one level up, as allowCredentials / excludeCredentials of WebAuthn requests through a real Client from an origin of the RP; and the same contents/lists/RPs against find_credentials of MemoryStore, Option<Passkey> and their four lock wrappers (wrappers compared with the store they wrap); plus every interleaving of a registration whose exclude list names a held credential with a concurrent assertion over Arc<Mutex<_>> and Arc<RwLock<_>> (must be refused in every schedule). Non-trivial = distinct case with a non-empty store",
+        "universe of 4 credentials (2 RPs x 2, equal user handles across RPs): all 16 store contents x RP in {a, b, RP without credentials, a in another letter case, a with a trailing dot} x lists {absent, empty, sub-lists of the 4 ids + 1 unknown id (size <= 2 in both orders quick, all 31 thorough), and ids in a value relation to a held id (a strict prefix of it, it plus one byte, the empty id, its base64url / hex / padded base64 text as bytes, the id reversed) alone and next to each of the 4 ids, and lists of 64..129 entries in which a held id sits behind, in front of or between runs of 64 unknown ids} x transports hints on the descriptors {none, disjoint from the authenticator's, overlapping, mixed, empty} x {no extension, PRF inputs per credential naming every id of the universe on an hmac-secret authenticator} x listing order {newest, oldest first} for get_assertion (allow list) and make_credential (exclude list; also with an unsupported-only / empty algorithm list and with pin-auth: credential-excluded still exactly when a held credential is named) on the real Authenticator over the contract store; the same contents x lists x RPs {a, b, none} x listing orders one level up, as allowCredentials / excludeCredentials of WebAuthn requests through a real Client from an origin of the RP; and the same contents/lists/RPs against find_credentials of MemoryStore, Option<Passkey> and their four lock wrappers (wrappers compared with the store they wrap); plus every interleaving of a registration whose exclude list names a held credential with a concurrent assertion over Arc<Mutex<_>> and Arc<RwLock<_>> (must be refused in every schedule). Non-trivial = distinct case with a non-empty store",
         true,
         stats,
     );
